@@ -140,6 +140,7 @@ class BodyGen:
                 self.feat.add('deleg:' + d.split('(')[0])
                 self.deleg[yid] = d.split('(')[0] if not d.startswith(('[', '(', 'iter')) else \
                     {'[': 'list', '(': 'genexpr', 'i': 'tuple_iter'}[d[0]]
+                self.ctx[yid] += '|d=' + self.deleg[yid]
                 lines = ['v = yield from ' + (d % base)]
             elif r < 0.35:
                 lines = ['yield ' + val]
@@ -149,6 +150,7 @@ class BodyGen:
             a = rng.choice(CORO_AWAIT)
             self.feat.add('await:' + a.split('(')[0])
             self.deleg[yid] = a.split('(')[0]
+            self.ctx[yid] += '|d=' + self.deleg[yid]
             lines = ['v = await ' + (a % (1000 + 10 * yid))]
         else:
             r = rng.random()
@@ -156,6 +158,7 @@ class BodyGen:
                 a = rng.choice(CORO_AWAIT)
                 self.feat.add('await:' + a.split('(')[0])
                 self.deleg[yid] = a.split('(')[0]
+                self.ctx[yid] += '|d=' + self.deleg[yid]
                 lines = ['v = await ' + (a % (1000 + 10 * yid))]
             elif r < 0.4:
                 lines = ['yield ' + val]
